@@ -196,8 +196,14 @@ class Subject(object):
             if po['private_ops'] == 'all-refused':
                 po['private_ops'] = self.private_ops(pgpy.PGPKey.from_blob(pblob)[0])
             o['pub'] = po
+            k2 = None
             if with_reimport:
-                k2 = pgpy.PGPKey.from_blob(blob)[0]
+                try:
+                    k2 = pgpy.PGPKey.from_blob(blob)[0]
+                except Exception:
+                    # the library cannot read its own export back: recorded as a failed re-import (C06.reimport / C18.stable)
+                    o['reimport'] = {'protected': False, 'unlocked_before': True, 'fingerprints': [], 'unlock_ok': False, 'sign_ok': False, 'wrong_refused': False}
+            if k2 is not None:
                 r = {'protected': bool(k2.is_protected), 'unlocked_before': bool(k2.is_protected and k2.is_unlocked),
                      'fingerprints': [str(k2.fingerprint)] + [str(s_.fingerprint) for s_ in k2.subkeys.values()]}
                 if k2.is_protected and current_pw is not None:
@@ -246,12 +252,22 @@ def _must_decrypt(key, msg):
     return d
 
 
+_ALT_CIPHER = {}
+
+
+def _init_alt():
+    from pgpy.constants import SymmetricKeyAlgorithm as SA
+    _ALT_CIPHER.update({SA.AES128: SA.CAST5, SA.AES256: SA.TripleDES, SA.CAST5: SA.AES256, SA.Camellia192: SA.Blowfish, SA.TripleDES: SA.AES192, SA.Blowfish: SA.Camellia256})
+
+
 def replay(subject, behaviour, cipher=None, halg=None, reimport_every=False):
     """-> trace dict {meta, events}. Open unlock scopes are held as entered context managers."""
     pgpy = subject.pgpy
     from pgpy.constants import SymmetricKeyAlgorithm, HashAlgorithm
     cipher = cipher or SymmetricKeyAlgorithm.AES128
     halg = halg or HashAlgorithm.SHA256
+    if not _ALT_CIPHER:
+        _init_alt()
     key = subject.fresh()
     stack = []
     cur_pw = None
@@ -263,7 +279,9 @@ def replay(subject, behaviour, cipher=None, halg=None, reimport_every=False):
             if a == 'protect':
                 was = (key.is_protected, key.is_unlocked)
                 try:
-                    key.protect(PW[arg], cipher, halg)
+                    # successive protections of one behaviour use ciphers of different block sizes (the protected body changes size)
+                    nprot = sum(1 for a_, _ in behaviour[:n] if a_ == 'protect')
+                    key.protect(PW[arg], _ALT_CIPHER.get(cipher, cipher) if nprot % 2 else cipher, halg)
                     if not (was[0] and not was[1]):
                         cur_pw = arg
                 except Exception:
